@@ -1,6 +1,8 @@
-"""vf/seedall.py [ids...] [--tier quick|thorough] [--prop Cxx=Cyy,...]: apply every seeded change to /repo in turn, run the
+"""vf/seedall.py [ids...] [--tier quick|thorough] [--prop Cxx=Cyy,...]: apply every seeded change to /repo (or the scratch worktree named by VERIF_REPO) in turn, run the
 check of its property, revert, and record in seeded/<id>/meta.json whether the check went red."""
 import json, os, subprocess, sys, glob, re
+
+REPO = os.environ.get("VERIF_REPO", "/repo")  # a scratch worktree of /repo at the same commit during development
 
 args = [a for a in sys.argv[1:] if not a.startswith("--")]
 tier = "quick"
@@ -13,19 +15,19 @@ for a in sys.argv[1:]:
             k, v = kv.split(":")
             override[k] = v
 ids = args or sorted(os.path.basename(d) for d in glob.glob("/verif/seeded/*") if os.path.isdir(d))
-if subprocess.run(["git", "-C", "/repo", "diff", "--quiet"]).returncode:
-    sys.exit("/repo is not clean")
+if subprocess.run(["git", "-C", REPO, "diff", "--quiet"]).returncode:
+    sys.exit(REPO + " is not clean")
 for sid in ids:
     d = os.path.join("/verif/seeded", sid)
     meta = json.load(open(os.path.join(d, "meta.json")))
     prop = override.get(sid, meta["property"])
-    if subprocess.run(["git", "-C", "/repo", "apply", os.path.join(d, "patch.diff")]).returncode:
+    if subprocess.run(["git", "-C", REPO, "apply", os.path.join(d, "patch.diff")]).returncode:
         print(sid, "patch does not apply")
         continue
     try:
-        p = subprocess.run(["./check", prop, "--tier", tier, "--no-evidence"], cwd="/verif", capture_output=True, text=True)
+        p = subprocess.run(["./check", prop, "--tier", tier, "--no-evidence"], cwd="/verif", capture_output=True, text=True, env=dict(os.environ, VERIF_REPO=REPO))
     finally:
-        subprocess.run(["git", "-C", "/repo", "checkout", "--", "."])
+        subprocess.run(["git", "-C", REPO, "checkout", "--", "."])
     clauses = sorted(set(re.findall(r"clause=(\S+)", p.stdout)))
     caught = p.returncode == 1 and "VIOLATION property=%s" % prop in p.stdout
     det = meta.get("detection") or {}
